@@ -45,7 +45,8 @@ theorem calc_cases {head limit : Nat} {synced : Ranges} {r : Range} (hi : RInv s
     (h : calculateRangeToFetch head synced limit = .ok r) (hne : Range.isEmpty r = false) :
     1 ≤ r.1 ∧ r.1 ≤ r.2 ∧
       (((∀ x, mem synced x → x < r.1) ∧ r.2 ≤ head ∧ (synced = [] ∨ mem synced (r.1 - 1))) ∨
-        (mem synced (r.2 + 1) ∧ ∀ x, r.2 < x → x ≤ head → mem synced x)) := by
+        (mem synced (r.2 + 1) ∧ (∀ x, r.2 < x → x ≤ head → mem synced x) ∧
+          ∀ x, r.1 ≤ x → x ≤ r.2 → ¬ mem synced x)) := by
   have hle : r.1 ≤ r.2 := by simpa [Range.isEmpty] using hne
   rcases List.eq_nil_or_concat synced with rfl | ⟨ys, hd, rfl⟩
   · -- nothing synced
@@ -94,7 +95,32 @@ theorem calc_cases {head limit : Nat} {synced : Ranges} {r : Range} (hi : RInv s
         have h3 : (Range.headn (s, hd.1 - 1) limit).2 + 1 = hd.1 := by
           have := hvhd.1; omega
         rw [h3]
-        refine ⟨⟨hd, by simp, Nat.le_refl _, hvhd.2.1⟩, fun x hx1 hx2 => ⟨hd, by simp, by omega, by omega⟩⟩
+        refine ⟨⟨hd, by simp, Nat.le_refl _, hvhd.2.1⟩, fun x hx1 hx2 => ⟨hd, by simp, by omega, by omega⟩, ?_⟩
+        -- the batch lies in the gap between the penultimate range and the highest range
+        rintro x hx1 hx2 ⟨y, hy, hy1, hy2⟩
+        rcases List.mem_append.1 hy with hy | hy
+        · -- `y` is one of the lower ranges: it ends at or below `s - 1`
+          have hys : RInv ys := (inv_append.1 hi).1
+          have hyle : y.2 + 1 ≤ s := by
+            cases hrev : ys.reverse with
+            | nil =>
+              have : ys = [] := by simpa using hrev
+              rw [this] at hy; cases hy
+            | cons p t =>
+              have hys' : ys = t.reverse ++ [p] := by
+                have := congrArg List.reverse hrev
+                simpa using this
+              rw [hrev] at hs
+              simp only [] at hs
+              have hsp : s = p.2 + 1 := by
+                split at hs
+                · injection hs with hs; omega
+                · cases hs
+              rw [hys'] at hys hy
+              have := (inv_le_last hys y hy).2
+              omega
+          omega
+        · simp at hy; subst hy; omega
 
 /-- what a scheduled request implies (both versions of the code) -/
 theorem request_cases {pc : Bool} {slowMin : Nat} {i : GateIn} {r : Range}
@@ -521,7 +547,7 @@ theorem gate_progress {pc : Bool} {slowMin : Nat} {i : GateIn} {old : Nat → Bo
   simp only [hss, addU64, hle, ↓reduceIte]
   congr 1
   unfold windowGate
-  rcases hshape with ⟨habove, _, _⟩ | ⟨hbound, hfill⟩
+  rcases hshape with ⟨habove, _, _⟩ | ⟨hbound, hfill, _⟩
   · -- forward: the bound is above everything synced
     have hnc : contains i.stored (r.2 + 1) = false := by
       cases hc : contains i.stored (r.2 + 1) with
